@@ -183,13 +183,21 @@ fn programs() -> Vec<Program> {
     v.push(mk("real-time: put a;raise || wait;delete a /queue1", 1, vec![], vec![vec![put(1, 2), Op::RaiseFlag { flag: 0 }], vec![Op::WaitFlag { flag: 0 }, del(1)]]));
     v.push(mk("burst: upsert b(w3);upsert b(w4);delete b;put b /queue1", 1, vec![put(2, 2)], vec![vec![upw(2, 3), upw(2, 4), del(2), put(2, 5)]]));
     v.push(mk("bursts: put a;put_ttl b || delete b;put c || get a /queue1", 1, vec![put(2, 2)], vec![vec![put(1, 2), put_ttl(2, 2, 5000)], vec![del(2), put(3, 2)], vec![get(1)]]));
+    for (name, q, threads) in [
+        ("bursts: put a;delete a;put a || put b;put a;delete b /queue1", 1usize, vec![vec![put(1, 2), del(1), put(1, 3)], vec![put(2, 2), put(1, 4), del(2)]]),
+        ("bursts: put a;put b || delete a;put c || put c;delete b /queue2", 2, vec![vec![put(1, 2), put(2, 2)], vec![del(1), put(3, 2)], vec![put(3, 3), del(2)]]),
+    ] {
+        let mut p = mk(name, q, vec![], threads);
+        p.thorough_only = true;
+        v.push(p);
+    }
     v
 }
 
 pub fn def(ctx: &Ctx) -> PropertyDef {
     let quick = ctx.quick();
     let workers = ctx.workers;
-    let scenarios: Vec<Scenario> = programs()
+    let scenarios: Vec<Scenario> = for_tier(programs(), quick)
         .into_iter()
         .map(|p| {
             let n = p.threads.len();
